@@ -8,6 +8,7 @@ package main
 //	                        every write is followed by a read of the same row
 
 import (
+	"context"
 	"fmt"
 	"math/rand"
 	"os"
@@ -20,6 +21,17 @@ import (
 )
 
 const flushBase = int64(1600000020) // a minute boundary in 2020
+
+// parkSender is a ReplicationSender that parks the flush that calls it: FlushCommandsToWAL hands
+// the transaction group to the sender after the WAL write + fsync and before the primary write,
+// i.e. in the middle of the model's `flushing` state.
+type parkSender struct{ entered, release chan struct{} }
+
+func (p *parkSender) Run(context.Context) {}
+func (p *parkSender) Send([]byte) {
+	p.entered <- struct{}{}
+	<-p.release
+}
 
 func flushRowStep(w int) string {
 	return fmt.Sprintf("W:FS/1Min/V:f:V=int32:%d,0,%s", flushBase+60*int64(w), hx([]byte{byte(w + 1), 0, 0, 0}))
@@ -51,6 +63,28 @@ func flushSchedOp(a []string) string {
 	}
 	executor.VerifSetHaveWALWriter(true)
 	defer executor.VerifSetHaveWALWriter(false)
+	ps := &parkSender{make(chan struct{}), make(chan struct{})}
+	in.wf.ReplicationSender = ps
+	var inflight chan error // result of the flush that is under way
+	parked, parkedReq := false, false
+	// begin runs one arm of the writer loop until it is parked at the sender or has finished
+	begin := func(f func() error) (finished bool, err error) {
+		done := make(chan error, 1)
+		go func() { done <- f() }()
+		select {
+		case <-ps.entered:
+			inflight, parked = done, true
+			return false, nil
+		case e := <-done:
+			return true, e
+		}
+	}
+	finish := func() error {
+		ps.release <- struct{}{}
+		e := <-inflight
+		inflight, parked = nil, false
+		return e
+	}
 	started := make([]bool, n)
 	returned := make([]atomic.Bool, n)
 	results := make([]string, n)
@@ -94,32 +128,71 @@ func flushSchedOp(a []string) string {
 	}
 	defer func() {
 		// release writers that are still blocked so that their goroutines end
+		if parked {
+			finish()
+		}
+		in.wf.ReplicationSender = &executor.NopReplicationSender{}
 		for in.wf.VerifFlushChannelLen() > 0 {
 			in.wf.VerifServeOneFlush()
 		}
 	}()
+	settle := func(before int, expectReturn bool) {
+		// an answered writer needs a moment to get from `<-f` to its caller
+		if expectReturn {
+			for i := 0; i < 4000 && nReturned() == before; i++ {
+				time.Sleep(500 * time.Microsecond)
+			}
+		}
+		time.Sleep(2 * time.Millisecond)
+	}
 	for _, tok := range a[1:] {
 		switch {
-		case tok == "F":
-			if in.wf.VerifFlushChannelLen() == 0 {
+		case tok == "F" || tok == "Ft":
+			if parked || in.wf.VerifFlushChannelLen() == 0 {
 				out = append(out, "disabled")
 				continue
 			}
 			before := nReturned()
-			if err := in.wf.VerifServeOneFlush(); err != nil {
+			fin, err := begin(in.wf.VerifServeOneFlush)
+			parkedReq = true
+			if !fin && tok == "F" {
+				err = finish()
+				fin = true
+			}
+			if err != nil {
 				out = append(out, "flusherr")
 				continue
 			}
-			// the answered writer needs a moment to get from `<-f` to its caller
-			for i := 0; i < 4000 && nReturned() == before; i++ {
-				time.Sleep(500 * time.Microsecond)
-			}
+			settle(before, fin)
 			out = append(out, snapshot())
-		case tok == "T":
-			if err := in.wf.FlushToWAL(); err != nil {
+		case tok == "T" || tok == "Tt":
+			if parked {
+				out = append(out, "disabled")
+				continue
+			}
+			fin, err := begin(in.wf.FlushToWAL)
+			parkedReq = false
+			if !fin && tok == "T" {
+				err = finish()
+			}
+			if err != nil {
 				out = append(out, "flusherr")
 				continue
 			}
+			settle(0, false)
+			out = append(out, snapshot())
+		case tok == "Ff" || tok == "Tf":
+			if !parked {
+				out = append(out, "disabled")
+				continue
+			}
+			before := nReturned()
+			if err := finish(); err != nil {
+				out = append(out, "flusherr")
+				continue
+			}
+			// the request arm answers its requester after the flush; the timer arm answers nobody
+			settle(before, parkedReq)
 			out = append(out, snapshot())
 		case strings.HasPrefix(tok, "W"):
 			w := int(atoi(tok[1:]))
@@ -160,6 +233,175 @@ func flushSchedOp(a []string) string {
 	}
 	if len(out) == 0 {
 		return ""
+	}
+	return strings.Join(out, " ")
+}
+
+// flushRealOp: the protocol through the REAL SyncWAL goroutine (timers out of reach, so only its
+// flushChannel arm runs). The harness parks the flush in progress at the replication hand-off and
+// releases it (`Ff`); everything else is the real loop. Tokens: W<w>, Ff.
+func flushRealOp(a []string) string {
+	n := int(atoi(a[0]))
+	if n < 0 || n > 64 {
+		return "harness:bad-arg n"
+	}
+	root := scratchDir("fr")
+	defer os.RemoveAll(root)
+	in := startInst(root, nil)
+	defer in.abandon()
+	if r := in.runStoreStep("C:FS/1Min/V:f:V=int32"); r != "C=ok" {
+		return "harness:create " + r
+	}
+	ps := &parkSender{make(chan struct{}, 1), make(chan struct{})}
+	in.wf.ReplicationSender = ps
+	in.wf.IncrementWaitGroup()
+	go in.wf.SyncWAL(1000*time.Hour, 1000*time.Hour, 1000)
+	for i := 0; i < 20000 && !executor.VerifHaveWALWriter(); i++ {
+		time.Sleep(100 * time.Microsecond)
+	}
+	started := make([]bool, n)
+	returned := make([]atomic.Bool, n)
+	results := make([]string, n)
+	parked := false
+	nReturned := func() int {
+		c := 0
+		for i := range returned {
+			if returned[i].Load() {
+				c++
+			}
+		}
+		return c
+	}
+	nStarted := func() int {
+		c := 0
+		for _, st := range started {
+			if st {
+				c++
+			}
+		}
+		return c
+	}
+	// quiesce: every started writer is accounted for — it has returned, its request waits in the
+	// flush channel, or it is the requester of the flush parked at the sender. While the loop is
+	// between taking a request and parking/answering, the sum is one short. No timing assumption.
+	quiesce := func() {
+		for round := 0; round < 2; round++ {
+			for i := 0; i < 40000; i++ {
+				if !parked {
+					select {
+					case <-ps.entered:
+						parked = true
+					default:
+					}
+				}
+				p := 0
+				if parked {
+					p = 1
+				}
+				if nReturned()+in.wf.VerifFlushChannelLen()+p >= nStarted() {
+					break
+				}
+				time.Sleep(250 * time.Microsecond)
+			}
+			time.Sleep(2 * time.Millisecond) // let a wrong extra answer show
+		}
+	}
+	var out []string
+	bad := false
+	snapshot := func() string {
+		var sb strings.Builder
+		for w := 0; w < n; w++ {
+			switch {
+			case !started[w]:
+				sb.WriteByte('S')
+			case returned[w].Load():
+				sb.WriteByte('R')
+			default:
+				sb.WriteByte('B')
+			}
+		}
+		vis := in.visibleWriters(n)
+		var v []string
+		for w := 0; w < n; w++ {
+			if vis[w] {
+				v = append(v, fmt.Sprint(w))
+			}
+			if started[w] && returned[w].Load() && !vis[w] {
+				bad = true
+			}
+		}
+		if len(v) == 0 {
+			return sb.String() + "/-"
+		}
+		return sb.String() + "/" + strings.Join(v, ",")
+	}
+	defer func() {
+		// let everything drain, then stop the loop
+		for i := 0; i < 200; i++ {
+			quiesce()
+			if !parked {
+				break
+			}
+			parked = false
+			ps.release <- struct{}{}
+		}
+		in.wf.ReplicationSender = &executor.NopReplicationSender{}
+		// the loop sleeps in its select (timers are out of reach): wake it with flush requests until
+		// it has seen the shutdown flag
+		done := make(chan struct{})
+		go func() { in.wf.Shutdown(); close(done) }()
+		for stop := false; !stop; {
+			select {
+			case <-done:
+				stop = true
+			case <-time.After(2 * time.Millisecond):
+				if executor.VerifHaveWALWriter() {
+					go in.wf.RequestFlush()
+				}
+			}
+		}
+		executor.VerifSetHaveWALWriter(false)
+	}()
+	for _, tok := range a[1:] {
+		switch {
+		case tok == "Ff":
+			if !parked {
+				out = append(out, "disabled")
+				continue
+			}
+			parked = false
+			ps.release <- struct{}{}
+			quiesce()
+			out = append(out, snapshot())
+		case strings.HasPrefix(tok, "W"):
+			w := int(atoi(tok[1:]))
+			if w < 0 || w >= n || started[w] {
+				out = append(out, "disabled")
+				continue
+			}
+			started[w] = true
+			go func(w int) {
+				defer func() {
+					if r := recover(); r != nil {
+						results[w] = "W=" + panicClass(r)
+					}
+					returned[w].Store(true)
+				}()
+				results[w] = in.runStoreStep(flushRowStep(w))
+			}(w)
+			quiesce()
+			out = append(out, snapshot())
+		default:
+			return "harness:bad-arg " + tok
+		}
+	}
+	for w := 0; w < n; w++ {
+		if returned[w].Load() && results[w] != "W=ok" {
+			out = append(out, fmt.Sprintf("w%d:%s", w, results[w]))
+		}
+	}
+	if bad {
+		out = append(out, "V=bad")
 	}
 	return strings.Join(out, " ")
 }
@@ -225,6 +467,8 @@ func flushStressOp(a []string) string {
 func init() {
 	ops["flushsched"] = flushSchedOp
 	slowOps["flushsched"] = true
+	ops["flushreal"] = flushRealOp
+	slowOps["flushreal"] = true
 	ops["flushstress"] = flushStressOp
 	slowOps["flushstress"] = true
 	gens["C07"] = func(g *Gen) {
@@ -238,6 +482,8 @@ func init() {
 			next := 0
 			queued := 0
 			steps := 2 + g.Intn(3*n+2)
+			fine := g.Intn(3) > 0 // split the loop's arms at the replication hand-off
+			parkedG := false
 			for s := 0; s < steps; s++ {
 				r := g.Intn(10)
 				switch {
@@ -246,19 +492,64 @@ func init() {
 					next++
 					queued++
 				case r < 8 && (queued > 0 || g.Intn(8) == 0):
-					toks = append(toks, "F")
+					switch {
+					case fine && !parkedG:
+						toks = append(toks, "Ft")
+						parkedG = true
+					case fine:
+						toks = append(toks, "Ff")
+						parkedG = false
+					default:
+						toks = append(toks, "F")
+					}
 					if queued > 0 {
 						queued--
 					}
 				default:
-					toks = append(toks, "T")
+					switch {
+					case fine && !parkedG:
+						toks = append(toks, "Tt")
+						parkedG = true
+					case fine:
+						toks = append(toks, "Tf")
+						parkedG = false
+					default:
+						toks = append(toks, "T")
+					}
 				}
 			}
+			if fine {
+				steps += 2
+			}
 			kind := "mixed"
+			if fine {
+				kind = "fine"
+			}
 			if n == 1 {
 				kind = "single"
 			}
 			g.Emit(fmt.Sprintf("flushsched %d %s", n, strings.Join(toks, " ")), "writers="+fmt.Sprint(n), kind)
+		}
+		for i := 0; i < g.N(25, 250); i++ {
+			n := 2 + g.Intn(5)
+			var toks []string
+			perm := g.R.Perm(n)
+			next, parkedG, waiting := 0, false, 0
+			for s := 0; s < 2+g.Intn(3*n); s++ {
+				if next < n && (g.Intn(3) > 0 || !parkedG) {
+					toks = append(toks, fmt.Sprintf("W%d", perm[next]))
+					next++
+					if parkedG {
+						waiting++
+					}
+					parkedG = true
+				} else {
+					toks = append(toks, "Ff")
+					parkedG = waiting > 0
+					waiting = 0
+				}
+			}
+			g.Emit(fmt.Sprintf("flushreal %d %s", n, strings.Join(toks, " ")), "writers="+fmt.Sprint(n), "realloop")
 		}
 		for i := 0; i < g.N(3, 30); i++ {
 			g.Emit(fmt.Sprintf("flushstress %d %d %d", 2+g.Intn(6), 20+g.Intn(60), g.Intn(1<<30)), "stress")
